@@ -1,19 +1,25 @@
 #!/bin/bash
-# usage: run_seeds.sh [seed dirs...]   — applies each seeded change to /repo, runs every claimed quick check,
-# prints which checks report a violation, and restores /repo. /repo must have no uncommitted changes.
-cd /verif
+# usage: run_seeds.sh [seed dirs...]
+# Applies each seeded change (/verif/seeded/<id>-<n>/patch.diff) to a scratch worktree of /repo's HEAD (never to /repo itself),
+# runs every claimed quick check against that worktree from a scratch copy of /verif, and prints which checks report a violation.
+set -u
+S=/tmp/seedrun
+rm -rf $S/verif; mkdir -p $S
+git -C /repo worktree remove --force $S/repo 2>/dev/null; rm -rf $S/repo
+git -C /repo worktree add -q --detach $S/repo HEAD || exit 2
+rsync -a --exclude .git --exclude out --exclude evidence /verif/ $S/verif/
 seeds="$@"; [ -z "$seeds" ] && seeds=$(ls -d /verif/seeded/*/)
 checks=$(python3 -c "import json;print(' '.join(c['property_id'] for c in json.load(open('/verif/MANIFEST.json'))['checks']))")
-if [ -n "$(git -C /repo status --porcelain)" ]; then echo "/repo is not clean"; exit 2; fi
 for d in $seeds; do
   d=${d%/}; name=$(basename $d)
-  if ! git -C /repo apply --3way $d/patch.diff >/dev/null 2>&1; then git -C /repo checkout -q -- . ; git -C /repo reset -q --hard; echo "$name: patch does not apply to the current tree"; continue; fi
-  git -C /repo reset -q   # unstage what --3way staged
+  if ! git -C $S/repo apply --3way $d/patch.diff >/dev/null 2>&1; then git -C $S/repo reset -q --hard; git -C $S/repo clean -fdq; echo "$name: patch does not apply to the current tree"; continue; fi
+  git -C $S/repo reset -q
   caught=""
   for p in $checks; do
-    out=$(bin/govc check -p $p 2>&1); rc=$?
-    if [ $rc -ne 0 ]; then ob=$(echo "$out" | grep -m2 -o 'obligation=[^ ]*' | tr '\n' ' '); caught="$caught $p[$ob]"; fi
+    out=$(cd $S/verif && bin/govc check -p $p -repo $S/repo -verif $S/verif 2>&1); rc=$?
+    if [ $rc -ne 0 ]; then ob=$(echo "$out" | grep -m2 -o 'obligation=[^ ]*' | sed 's/obligation=//' | tr '\n' ' '); caught="$caught $p[$ob]"; fi
   done
-  git -C /repo checkout -q -- . ; git -C /repo clean -fdq
+  git -C $S/repo checkout -q -- . ; git -C $S/repo clean -fdq
   echo "$name: caught by:${caught:- NONE}"
 done
+git -C /repo worktree remove --force $S/repo; rm -rf $S/verif
